@@ -48,7 +48,7 @@ Fixpoint check_steps (s : store) (l : list stepobs) : bool :=
   | x :: r =>
       let os := step (s_cok x) s (s_op x) in
       iout_matches (fst os) (s_out x)
-      && Bool.eqb (crypto_called (fst os)) (s_called x)
+      && Bool.eqb (crypto_called (s_op x) (fst os)) (s_called x)
       && views_eqb (map view (objs (snd os))) (s_objs x)
       && check_steps (snd os) r
   end.
@@ -62,7 +62,7 @@ Fixpoint first_bad (n : nat) (s : store) (l : list stepobs) : option (nat * outc
   | x :: r =>
       let os := step (s_cok x) s (s_op x) in
       if iout_matches (fst os) (s_out x)
-         && Bool.eqb (crypto_called (fst os)) (s_called x)
+         && Bool.eqb (crypto_called (s_op x) (fst os)) (s_called x)
          && views_eqb (map view (objs (snd os))) (s_objs x)
       then first_bad (S n) (snd os) r
       else Some (n, fst os, map view (objs (snd os)))
